@@ -76,6 +76,7 @@ class PandasMaterializer(FormulaMaterializer):
         spec: ModelSpec,
         drop_rows: Sequence[int],
     ) -> Any:
+        values = self._as_numerical_column(values)
         if drop_rows:
             values = drop_nulls(values, indices=drop_rows)
         if spec.output == "sparse":
@@ -83,7 +84,7 @@ class PandasMaterializer(FormulaMaterializer):
             if array.dtype == numpy.float16:
                 # scipy.sparse has no half-precision support
                 array = array.astype(numpy.float32)
-            return spsparse.csc_matrix(array.reshape((values.shape[0], 1)))
+            return spsparse.csc_matrix(array.reshape((array.shape[0], 1)))
         return values
 
     @override
